@@ -41,8 +41,18 @@ def orderer(*elements: Element) -> Iterator[ObjectMeta]:
         for object_class in object_classes
     }
 
-    def has_cycle(name):
-        return name in object_dependencies[name]
+    def has_cycle(name: str) -> bool:
+        """Whether a class depends on itself, directly or through others."""
+        seen: Set[str] = set()
+        pending = list(object_dependencies[name])
+        while pending:
+            dep = pending.pop()
+            if dep == name:
+                return True
+            if dep not in seen:
+                seen.add(dep)
+                pending.extend(object_dependencies.get(dep, []))
+        return False
 
     def from_name(name: str) -> ObjectMeta:
         """Get the object class from the name."""
